@@ -46,9 +46,9 @@ func (v *Validator) ValidateAll(ctx context.Context) (*ValidationReport, error) 
 		Results:   []ValidationResult{},
 	}
 
-	// Find PartStore using reflection
-	partStore := findPartStore(v.storage)
-	if partStore == nil {
+	// Find the part store(s) using reflection
+	resolvePartStore := findPartStoreResolver(v.storage)
+	if resolvePartStore == nil {
 		return nil, fmt.Errorf("could not find PartStore in storage hierarchy")
 	}
 
@@ -102,7 +102,7 @@ func (v *Validator) ValidateAll(ctx context.Context) (*ValidationReport, error) 
 			slog.Info(fmt.Sprintf("Validating object %d (Bucket: %s, Object: %s) - Rate: %.2f obj/s",
 				processedObjects, bucket.Name, object.Key, rate))
 
-			result := v.validateObject(ctx, db, partStore, partRepo, objectRepo, bucket.Name, object)
+			result := v.validateObject(ctx, db, resolvePartStore, partRepo, objectRepo, bucket.Name, object)
 			report.Results = append(report.Results, result)
 
 			if result.Success {
@@ -133,7 +133,7 @@ func (v *Validator) ValidateAll(ctx context.Context) (*ValidationReport, error) 
 	return report, nil
 }
 
-func (v *Validator) validateObject(ctx context.Context, db database.Database, partStore partstore.PartStore,
+func (v *Validator) validateObject(ctx context.Context, db database.Database, resolvePartStore partStoreResolver,
 	partRepo part.Repository, objectRepo object.Repository,
 	bucketName storage.BucketName, object storage.Object) ValidationResult {
 
@@ -164,8 +164,12 @@ func (v *Validator) validateObject(ctx context.Context, db database.Database, pa
 		var partChecksums []storage.ChecksumValues
 
 		for _, part := range parts {
-			// Read part content
-			reader, err := partStore.GetPart(ctx, tx, part.PartId)
+			// Read part content from the store recorded on the part row
+			var reader io.ReadCloser
+			partStore, err := resolvePartStore(part.PartStoreName)
+			if err == nil {
+				reader, err = partStore.GetPart(ctx, tx, part.PartId)
+			}
 			if err != nil {
 				result.Success = false
 				result.ErrorType = "Part retrieval failed"
@@ -382,6 +386,55 @@ func (v *Validator) confirmDeletion(result ValidationResult) bool {
 		return text == "y" || text == "yes"
 	}
 	return false
+}
+
+// partStoreResolver returns the part store holding the data of a part row,
+// given the store name recorded on the row (nil means the default store).
+type partStoreResolver func(partStoreName *string) (partstore.PartStore, error)
+
+// findPartStoreResolver prefers the named part stores of a metadata/part
+// storage (parts are read from the store they were written to) and falls
+// back to a single PartStore field.
+func findPartStoreResolver(s interface{}) partStoreResolver {
+	if namedPartStores := findNamedPartStores(s); namedPartStores != nil {
+		return namedPartStores.ByName
+	}
+	if partStore := findPartStore(s); partStore != nil {
+		return func(*string) (partstore.PartStore, error) { return partStore, nil }
+	}
+	return nil
+}
+
+func findNamedPartStores(s interface{}) *partstore.NamedPartStores {
+	val := reflect.ValueOf(s)
+	if val.Kind() == reflect.Ptr {
+		val = val.Elem()
+	}
+	if val.Kind() != reflect.Struct {
+		return nil
+	}
+
+	namedPartStoresType := reflect.TypeOf((*partstore.NamedPartStores)(nil))
+	for i := 0; i < val.NumField(); i++ {
+		field := val.Field(i)
+		if field.Type() == namedPartStoresType && !field.IsNil() {
+			// Handle unexported fields
+			return reflect.NewAt(field.Type(), unsafe.Pointer(field.UnsafeAddr())).Elem().Interface().(*partstore.NamedPartStores)
+		}
+	}
+
+	// Recurse into fields that implement Storage
+	storageType := reflect.TypeOf((*storage.Storage)(nil)).Elem()
+	for i := 0; i < val.NumField(); i++ {
+		field := val.Field(i)
+		if field.Type().Implements(storageType) {
+			inner := reflect.NewAt(field.Type(), unsafe.Pointer(field.UnsafeAddr())).Elem().Interface()
+			if namedPartStores := findNamedPartStores(inner); namedPartStores != nil {
+				return namedPartStores
+			}
+		}
+	}
+	return nil
 }
 
 func findPartStore(s interface{}) partstore.PartStore {
